@@ -32,8 +32,8 @@ def main():
     out.append("# Operator-level mutation sweep\n")
     out.append(f"{len(rows)} single-edit mutants of the library sources (`tools/mutsweep.py`): "
                f"{st['compile-error']} do not compile, {st['killed-by-suite']} are killed by the repository's own suite "
-               f"(`cargo nextest run --workspace`), {len(survivors)} survive it. Of those survivors the quick checks of the "
-               f"properties anchored in the mutated file catch **{len(caught)}**; {len(missed)} are not caught"
+               f"(`cargo nextest run --workspace`), {len(survivors)} survive it. Of those survivors the checks of the "
+               f"properties anchored in the mutated file catch **{len(caught)}** ({sum(1 for r in caught if r.get('tier') == 'thorough')} of them only in the thorough tier); {len(missed)} are not caught"
                + (f" ({', '.join(f'{v} {k}' for k, v in sorted(cls.items()))})" if missed else "") + ".\n")
     out.append("| file | mutants | compile error | killed by suite | caught by checks | not caught |\n|---|---|---|---|---|---|")
     for f in sorted(by_file):
